@@ -40,7 +40,10 @@ Clause → theorem
   "without truncating its tails" FAILS for the code as it is: the search compares the JOINT density
   with an absolute threshold, so the same conditional density gets x_max above its mode in the bulk
   and x_max = 0.05 below its mode when the marginal factor is small      xmax_truncates  (known finding #17)
-  MC agreement of conditional samples / IFORM ≈ transformed IFORM / repeatability   PARTIAL — observed per run
+  reproduced exactly when random_state is set: which stream each Monte-Carlo step uses
+                                                                iform_seeded_reproducible,
+                                                                iform_unforwarded_counterexample (defect #16, repaired)
+  MC agreement of conditional samples / IFORM ≈ transformed IFORM              PARTIAL — observed per run
 -/
 import VirVerif.Model.Transform
 import VirVerif.Model.Rejection
@@ -273,6 +276,22 @@ theorem tpdf_pushforward (base : ℝ × ℝ → ℝ) (F hs tz : ℝ) (hF : 0 < F
 example : xHat 3 1 [(7 : Nat), 9] 5 = some [7, 5, 9] := by decide
 example : xHat 2 0 [(7 : Nat)] 5 = some [5, 7] := by decide
 example : xHat 3 1 [(7 : Nat)] 5 = none := by decide
+
+/-! ## 3b. reproducibility with `random_state` set (defect #16) -/
+
+/-- after the repair: with a seed set, the contour point does not depend on the entropy of the run -/
+theorem iform_seeded_reproducible {S A B : Type} (streamOf : Nat → S) (marg : S → A) (cond : S → A → B)
+    (seed e0 e1 e0' e1' : Nat) :
+    iformTPoint streamOf marg cond (some seed) true e0 e1 =
+      iformTPoint streamOf marg cond (some seed) true e0' e1' := rfl
+
+/-- before the repair (`marginal_icdf` drew with `random_state=None`): two runs with the same seed
+can differ — witness: the identity stream -/
+theorem iform_unforwarded_counterexample :
+    ∃ (streamOf : Nat → Nat) (marg : Nat → Nat) (cond : Nat → Nat → Nat) (seed e0 e0' e1 : Nat),
+      iformTPoint streamOf marg cond (some seed) false e0 e1 ≠
+        iformTPoint streamOf marg cond (some seed) false e0' e1 :=
+  ⟨id, id, fun _ a => a, 42, 0, 1, 0, by decide⟩
 
 /-! ## 4. the rejection sampler -/
 
